@@ -118,6 +118,15 @@ def run_shard(shard, ctx, tier):
         for xml in (False, True):
             text, elements = D.emit(forest, xml)
             ctx.states += 1
+            if not xml:
+                # calls that rely on the default options, made after calls with explicit options, behave like explicit defaults
+                for p in range(0, len(text) + 1, 3):
+                    H.match(text, p, {'xml': True, 'empty': ['div'], 'special': {}})
+                    a = H.match(text, p)
+                    b = H.match(text, p, {'xml': False})
+                    if (a and tag_tuple(a)) != (b and tag_tuple(b)):
+                        ctx.violation('match:default-options-differ-from-explicit-defaults', dict(forest=forest, xml=None, pos=p, text=text),
+                                      dict(default_call=a and tag_tuple(a), explicit_call=b and tag_tuple(b)))
             for p in range(len(text) + 1):
                 ctx.tick((text, p))
                 ctx.transitions += 1
@@ -149,6 +158,14 @@ def _untuple(f):
 
 def check_case(case):
     forest = _untuple(case['forest'])
+    if case['xml'] is None:
+        text, elements = D.emit(forest, False)
+        H.match(text, case['pos'], {'xml': True, 'empty': ['div'], 'special': {}})
+        a = H.match(text, case['pos'])
+        b = H.match(text, case['pos'], {'xml': False})
+        if (a and tag_tuple(a)) != (b and tag_tuple(b)):
+            return [('match:default-options-differ-from-explicit-defaults', dict(default_call=a and tag_tuple(a), explicit_call=b and tag_tuple(b)))]
+        return []
     text, elements = D.emit(forest, case['xml'])
     return check_pos(text, elements, case['xml'], case['pos'])
 
